@@ -937,7 +937,7 @@ class HistogramBase(abc.ABC):
         # (dtype, missed, stats, ...) were kept out of the call, put them back
         for key, value in (a_dict.get("meta_data") or {}).items():
             if key not in histogram._meta_data and key not in ("axis_names", "name", "title"):
-                histogram._meta_data[key] = value
+                histogram._meta_data[key] = copy.deepcopy(value)
         return histogram
 
     def to_json(self, path: Optional[str] = None, **kwargs) -> str:
